@@ -12,12 +12,16 @@ the operations, never from the diagram.
 """
 
 import gc
+import math
 import os
 import random
 import sys
 
 from . import core
 from .runner import run_isolated
+
+LINE_SPAN = {'build': 4000, 'combine': 900, 'invert': 600, 'restrict': 400,
+             'dnf': 30000, 'bad_build': 4000, 'bad_combine': 50}
 
 VARS = ['a', 'b', 'c', 'd']
 TT = {'a': 0xAAAA, 'b': 0xCCCC, 'c': 0xF0F0, 'd': 0xFF00}
@@ -124,9 +128,13 @@ def gen_plan(seed):
         'churn': rng.choice([0, 0, 1]),
         'depth': rng.choice([2, 3, 3]),
         'w_drop': rng.choice([1, 2, 3]),
-        'w_deferred': rng.choice([0, 1, 2]),
+        'w_deferred': rng.choice([0, 1, 2, 4]),
         'w_gc': rng.choice([0, 1, 2]),
         'one_ordering': rng.random() < 0.3,
+        'w_bad': rng.choice([0, 0, 1]),
+        'p_reuse_left': rng.choice([0.0, 0.1, 0.3]),
+        'small_exprs': rng.random() < 0.3,
+        'p_infunc': rng.choice([0.0, 0.3, 0.6]),
     }
     occ = {}      # slot -> ordering index
     ops = []
@@ -135,10 +143,12 @@ def gen_plan(seed):
         kinds = [('build', 4)]
         if occ:
             kinds += [('combine', 5), ('invert', 2), ('restrict', 2),
-                      ('dnf', 1),
+                      ('dnf', 1), ('bad_combine', cfg['w_bad']),
                       ('drop', cfg['w_drop']),
                       ('drop_deferred', cfg['w_deferred'])]
         kinds.append(('gc', cfg['w_gc']))
+        kinds.append(('bad_build', cfg['w_bad']))
+        kinds.append(('release_exc', cfg['w_bad']))
         tot = sum(w for _, w in kinds)
         x = rng.uniform(0, tot)
         kind = kinds[-1][0]
@@ -149,12 +159,18 @@ def gen_plan(seed):
             x -= w
         if kind == 'gc' and cfg['w_gc'] == 0:
             kind = 'build'
+        if kind in ('bad_build', 'release_exc', 'bad_combine') and \
+                cfg['w_bad'] == 0:
+            kind = 'build'
         slot = rng.randrange(NSLOTS)
         op = None
         if kind == 'build':
             oi = 0 if cfg['one_ordering'] else rng.randrange(2)
+            d = cfg['depth']
+            if cfg['small_exprs'] and rng.random() < 0.6:
+                d = rng.choice([0, 1])
             op = {'k': 'build', 's': slot,
-                  'e': gen_expr(rng, cfg['depth'], nvars), 'o': oi}
+                  'e': gen_expr(rng, d, nvars), 'o': oi}
             occ[slot] = oi
         elif kind == 'combine':
             a = rng.choice(sorted(occ))
@@ -173,19 +189,78 @@ def gen_plan(seed):
             op = {'k': 'restrict', 's': slot, 'a': a,
                   'v': rng.choice(VARS), 'b': rng.choice([0, 1, True, False])}
             occ[slot] = occ[a]
+        elif kind == 'bad_build':
+            # a user error in the middle of a history: an expression that
+            # mentions a variable outside the ordering; the exception (and
+            # through its traceback the frames holding partial results) is
+            # kept until a later release_exc
+            e = gen_expr(rng, cfg['depth'], nvars)
+            op = {'k': 'bad_build', 'o': rng.randrange(2),
+                  'e': ['&', e, ['v', 'zz']] if rng.random() < 0.5
+                  else ['|', ['v', 'zz'], e]}
+        elif kind == 'bad_combine':
+            a = rng.choice(sorted(occ))
+            other = sorted(s for s in occ
+                           if orderings[occ[s]] != orderings[occ[a]])
+            if other:
+                op = {'k': 'bad_combine', 'a': a, 'b': rng.choice(other),
+                      'op': rng.choice('&|^')}
+            else:
+                op = {'k': 'gc'}
+        elif kind == 'release_exc':
+            op = {'k': 'release_exc'}
         elif kind in ('drop', 'drop_deferred'):
             a = rng.choice(sorted(occ))
             op = {'k': kind, 's': a}
             del occ[a]
         else:
             op = {'k': 'gc'}
-        if op['k'] not in ('gc', 'drop', 'drop_deferred') and \
-                rng.random() < cfg['midgc_p']:
-            if cfg['midgc_mode'] == 'single':
-                op['g'] = ['at', rng.randint(1, rng.choice([8, 40, 200]))]
+        lib = op['k'] not in ('gc', 'drop', 'drop_deferred', 'release_exc')
+        after_zombie = bool(ops) and ops[-1]['k'] == 'drop_deferred'
+        if lib and (rng.random() < cfg['midgc_p'] or
+                    (after_zombie and cfg['midgc_p'] > 0 and
+                     rng.random() < 0.7)):
+            if rng.random() < (max(cfg['p_infunc'], 0.5) if after_zombie
+                               else cfg['p_infunc']):
+                # the j-th line event inside one function, the function
+                # being picked at execution time in proportion to the line
+                # events each function of the BDD modules has consumed so
+                # far in this run (loop-heavy lookups weigh most)
+                op['g'] = ['infunc', rng.random(),
+                           max(1, int(math.exp(rng.uniform(0,
+                                                           math.log(400)))))]
+            elif cfg['midgc_mode'] == 'single' or after_zombie:
+                # log-uniform over the typical length of this kind of op
+                # (measured: build ~1000 line events, combine ~250, invert
+                # and restrict ~120, dnf ~17000), so that the collection
+                # can land anywhere inside it
+                top = LINE_SPAN.get(op['k'], 500)
+                op['g'] = ['at', max(1, int(math.exp(
+                    rng.uniform(0, math.log(top)))))]
             else:
                 op['g'] = ['every', cfg['period']]
         ops.append(op)
+        if op['k'] == 'combine' and rng.random() < cfg['p_reuse_left']:
+            # the same OBDD object as left operand again, same operator,
+            # after the first right operand was dropped and another small
+            # diagram was built (address reuse of a dropped root)
+            a, b = op['a'], op['b']
+            if a != b and a != op['s'] and b != op['s']:
+                lit = ['v', rng.choice(VARS[:nvars])]
+                e2 = lit if rng.random() < 0.5 else ['~', lit]
+                seq = [{'k': 'drop', 's': b}]
+                if rng.random() < 0.6:
+                    seq.append({'k': 'drop', 's': op['s']})
+                seq.append({'k': 'build', 's': b, 'e': e2, 'o': occ[a]})
+                seq.append({'k': 'combine', 's': rng.randrange(NSLOTS),
+                            'op': op['op'], 'a': a, 'b': b})
+                if seq[-1]['s'] not in (a, b):
+                    for o2 in seq:
+                        if o2['k'] == 'drop':
+                            occ.pop(o2['s'], None)
+                        else:
+                            occ[o2['s']] = occ[a]
+                        ops.append(o2)
     return {'prop': 'C16', 'orderings': orderings, 'churn': cfg['churn'],
             'cfg': cfg, 'ops': ops}
 
@@ -231,13 +306,15 @@ def execute(plan):
     orderings = plan['orderings']
     slots = {}        # slot -> [obdd, tt_model, ordering index, route]
     limbo_count = [0]
+    held_exc = []
     probes = {}
     faults = {'gc_between_ops': 0, 'gc_mid_op': 0, 'drop_refcount': 0,
               'drop_deferred': 0, 'churn': 0}
     events = []
     seen_ids = set()
     dead_ids = set()
-    state = {'armed': None, 'count': 0, 'fired': 0, 'in_gc': False}
+    state = {'armed': None, 'count': 0, 'fired': 0, 'in_gc': False,
+             'fcount': 0}
 
     def probe(name, n=1):
         probes[name] = probes.get(name, 0) + n
@@ -248,12 +325,25 @@ def execute(plan):
         return [o for o in gc.get_objects() if type(o) is NT
                 or (isinstance(o, NT))]
 
+    func_lines = {}      # function name -> line events so far in this run
+    func_order = []
+
     def local_trace(frame, event, arg):
         if event == 'line' and state['armed'] is not None \
                 and not state['in_gc']:
             state['count'] += 1
-            mode, k = state['armed']
-            if (mode == 'at' and state['count'] == k) or \
+            nm = frame.f_code.co_name
+            if nm not in func_lines:
+                func_lines[nm] = 0
+                func_order.append(nm)
+            func_lines[nm] += 1
+            mode, k = state['armed'][0], state['armed'][1]
+            hit = False
+            if mode == 'infunc':
+                if nm == k:
+                    state['fcount'] += 1
+                    hit = state['fcount'] == state['armed'][2]
+            if hit or (mode == 'at' and state['count'] == k) or \
                     (mode == 'every' and state['count'] % k == 0):
                 state['in_gc'] = True
                 try:
@@ -275,6 +365,9 @@ def execute(plan):
                             probe('gc_inside_' + nm.strip('_'))
                     if freed:
                         probe('objects_collected_mid_operation')
+                        for nm in ('find_isomorph', 'weakrefset'):
+                            if nm in names:
+                                probe('objects_collected_inside_' + nm)
                 finally:
                     state['in_gc'] = False
         return local_trace
@@ -418,6 +511,12 @@ def execute(plan):
                 del slots[op['s']]
                 faults['drop_refcount'] += 1
             return
+        if k == 'release_exc':
+            if held_exc:
+                del held_exc[:]
+                faults['held_exception_released'] = \
+                    faults.get('held_exception_released', 0) + 1
+            return
         if k == 'drop_deferred':
             if op['s'] in slots:
                 cell = [slots.pop(op['s'])[0]]
@@ -431,8 +530,31 @@ def execute(plan):
             if need in op and op[need] not in slots:
                 return          # operand removed by minimisation: no-op
         if g is not None:
-            state['armed'] = (g[0], g[1])
+            if g[0] == 'infunc':
+                # resolve the function by cumulative weight
+                def weight(nm):
+                    # lookups in a unique table are where a collection
+                    # hurts most: a bias, nothing more
+                    w = func_lines[nm]
+                    low = nm.lower()
+                    if any(t in low for t in ('find', 'isomorph', 'lookup',
+                                              'unique', 'intern', 'iter')):
+                        w *= 6
+                    return w
+                tot = sum(weight(nm) for nm in func_order)
+                name = None
+                if tot:
+                    x = g[1] * tot
+                    for nm in func_order:
+                        x -= weight(nm)
+                        if x < 0:
+                            name = nm
+                            break
+                state['armed'] = ('infunc', name, g[2])
+            else:
+                state['armed'] = (g[0], g[1])
             state['count'] = 0
+            state['fcount'] = 0
             sys.settrace(global_trace)
         try:
             if k == 'build':
@@ -458,6 +580,32 @@ def execute(plan):
                 made = [A[0].restrict(op['v'], op['b']),
                         cofactor(A[1], op['v'], bool(op['b'])), A[2],
                         'restrict']
+            elif k == 'bad_build':
+                try:
+                    OBDD(expr_text(op['e']), list(orderings[op['o']]))
+                except Exception as e:
+                    held_exc.append(e)
+                    faults['user_error_mid_history'] = \
+                        faults.get('user_error_mid_history', 0) + 1
+                else:
+                    raise Violation('C16/op-accepted',
+                                    'an expression over a variable outside '
+                                    'the ordering was accepted')
+            elif k == 'bad_combine':
+                A = slots[op['a']]
+                B = slots[op['b']]
+                if orderings[A[2]] != orderings[B[2]]:
+                    try:
+                        if op['op'] == '&':
+                            A[0] & B[0]
+                        elif op['op'] == '|':
+                            A[0] | B[0]
+                        else:
+                            A[0] ^ B[0]
+                    except Exception as e:
+                        held_exc.append(e)
+                        faults['user_error_mid_history'] = \
+                            faults.get('user_error_mid_history', 0) + 1
             elif k == 'dnf':
                 A = slots[op['a']]
                 made = [OBDD(tt_dnf_text(A[1]), list(orderings[A[2]])),
@@ -512,6 +660,7 @@ def execute(plan):
                            eqm, nlive])
         # J5 (diagnostic only): nothing but terminals survives
         slots.clear()
+        del held_exc[:]
         gc.collect()
         gc.collect()
         left = len(live_nodes())
